@@ -185,6 +185,53 @@ func main() {
 			}
 		}
 	}
+	// ---- scripted histories the depth-bounded search cannot reach: LARGE sets with the node observing LAST
+	// (every other member's observation is delivered before the node's own watcher reports the message), and a
+	// rotation between two 19-member sets while the digest is still unknown to the node. The reference model
+	// of the publish point (C02's oracle) demands the VAA as soon as floor(2n/3)+1 members incl. the node signed,
+	// and the contract thresholds judge what is published.
+	for _, n := range []int{4, 13, 19, 20, 29, 30, 31, 64, 100, 255} {
+		sets := [][]int{keys.Range(0, n)}
+		c := proch.Config{Name: fmt.Sprintf("late-observer-n%d", n), Sets: sets, OwnKey: 0,
+			Msgs: []proch.Msg{{Seq: 3, Payload: []byte{7}, Emitter: e0, Chain: 2, Target: 255, CL: 1}}}
+		x := &proch.Explorer{R: r, W: w, C: &c, Oracles: map[string]bool{"C02": true}}
+		published := 0
+		x.OnStep = func(in *proch.Inst, e proch.Event, out proch.Out, hist []proch.Event) { published += len(out.VAAs) }
+		hist := []proch.Event{{Kind: "set", Set: 0}}
+		for g := 1; g < n; g++ {
+			hist = append(hist, proch.Event{Kind: "obs", G: g, D: 0})
+		}
+		hist = append(hist, proch.Event{Kind: "msg", M: 0}, proch.Event{Kind: "lb", LB: 0})
+		x.Run(hist).Close()
+		r.Add("transitions", x.Transitions)
+		r.Add("late_observer_histories", 1)
+		if published != 1 {
+			r.Violation("node use: all members signed and the node observed last, but the node did not publish exactly one VAA", fmt.Sprintf("n=%d published=%d", n, published), map[string]interface{}{"n": n, "history": "Set, Obs(g=1..n-1), Msg, LB"})
+		}
+	}
+	{
+		sets := [][]int{keys.Range(0, 19), keys.Range(19, 38)}
+		c := proch.Config{Name: "rotation-19-to-19-digest-unknown", Sets: sets, OwnKey: 19,
+			Msgs: []proch.Msg{{Seq: 3, Payload: []byte{7}, Emitter: e0, Chain: 2, Target: 255, CL: 1}}}
+		x := &proch.Explorer{R: r, W: w, C: &c, Oracles: map[string]bool{"C02": true}}
+		published := 0
+		x.OnStep = func(in *proch.Inst, e proch.Event, out proch.Out, hist []proch.Event) { published += len(out.VAAs) }
+		hist := []proch.Event{{Kind: "set", Set: 0}}
+		for g := 0; g < 12; g++ {
+			hist = append(hist, proch.Event{Kind: "obs", G: g, D: 0})
+		}
+		hist = append(hist, proch.Event{Kind: "set", Set: 1})
+		for g := 20; g < 32; g++ {
+			hist = append(hist, proch.Event{Kind: "obs", G: g, D: 0})
+		}
+		hist = append(hist, proch.Event{Kind: "msg", M: 0}, proch.Event{Kind: "lb", LB: 0})
+		x.Run(hist).Close()
+		r.Add("transitions", x.Transitions)
+		r.Add("late_observer_histories", 1)
+		if published != 1 {
+			r.Violation("node use: after a rotation between two 19-member sets a quorum of the new set signed, but the node did not publish exactly one VAA", fmt.Sprintf("published=%d", published), map[string]interface{}{"history": "Set(0), 12 x Obs(old members), Set(1), 12 x Obs(new members), Msg, LB"})
+		}
+	}
 	r.Set("rule", "every n in 0..255 once; n>=1 judged (non-trivial), n=0 reported only; Go (tree), Go (explorer pin), Solidity and Ralph formulas extracted from the working tree's contract sources; node use: explicit-state BFS (sets of 1..4, depth 6-7, state-key pruning) over the real processor with every complete VAA judged by the extracted contract thresholds")
 	r.Finish()
 }
